@@ -128,12 +128,17 @@ class Builder:
         return self.model
 
     def event_for(self, h):
-        """Apply one (edit) step and return its event, whatever self.log says."""
+        """Apply one (edit) step and return its event, whatever self.log says.  A step the object graph
+        does not admit (the thing it refers to is not there) is an event with out = error:<class>."""
         keep, self.log = self.log, False
-        self.step(h)
+        out = 'value'
+        try:
+            self.step(h)
+        except (IndexError, KeyError, ValueError, AttributeError) as exc:
+            out = 'error:' + type(exc).__name__
         self.log = keep
         post, anom = project(self.model, self.naming)
-        return {'a': h['a'], 'args': {k: v for k, v in h.items() if k != 'a'}, 'out': 'value', 'post': post, 'anom': anom}
+        return {'a': h['a'], 'args': {k: v for k, v in h.items() if k != 'a'}, 'out': out, 'post': post, 'anom': anom}
 
 
 def split_edits(hist):
